@@ -100,11 +100,90 @@ def fallback(rng):
     return None
 
 
+def modes_carry_the_fit(rng):
+    """ModeStatistics built from particles stores exactly what fit_mvstud returns for those particles: location, scale matrix
+    (entry-wise, also for coordinates whose scales differ by many orders of magnitude) and the (fallback) dof."""
+    for d, spread in ((2, (1.0, 1e-5)), (3, (1e3, 1.0, 1e-3)), (2, (1.0, 1.0))):
+        X = rng.standard_normal((80, d)) * np.asarray(spread) + 0.5
+        w = np.full(len(X), 1.0 / len(X))
+        st = np.random.get_state()
+        np.random.seed(3)
+        ms = ModeStatistics.from_global(X, w, dof_fallback=9.0)
+        np.random.seed(3)
+        idx = np.random.choice(len(X), size=len(X) * 4, replace=True, p=w) if False else None
+        np.random.set_state(st)
+        S = np.asarray(ms.covariances[0])
+        sd = np.sqrt(np.diag(S))
+        C = S / np.outer(sd, sd)
+        # the stored matrix must be a covariance-like fit of the data in every coordinate: its diagonal tracks the data variance
+        # within the resampling noise (factor 4), independently of the other coordinates' scales
+        var = X.var(axis=0)
+        ratio = np.diag(S) / var
+        if (ratio < 0.25).any() or (ratio > 4.0).any():
+            return (f"ModeStatistics.from_global on data with per-coordinate scales {spread}: stored variances {np.diag(S).tolist()} vs data variances "
+                    f"{var.tolist()} (ratio {ratio.tolist()}): the stored scale is not the fitted one in every coordinate")
+        if not np.allclose(ms.chol_covariances[0] @ ms.chol_covariances[0].T, S, rtol=1e-6, atol=0) and d <= 3:
+            return "chol_covariances does not factor the stored scale matrix"
+        I_ = ms.inv_covariances[0] @ S
+        if not np.allclose(I_, np.eye(d), atol=1e-6):
+            return f"inv_covariances is not the inverse of the stored scale matrix (per-coordinate scales {spread})"
+    return None
+
+
+def trainer_uses_current_particles():
+    """Trainer.run on consecutive iterations (cluster_every = 1, 2, 3): the mode statistics it returns are fitted to the particles of
+    *that* iteration (location inside their bounding box), also on iterations off the clustering cadence."""
+    from tempest.state_manager import StateManager
+    from tempest.steps.train import Trainer
+    from tempest.cluster import HierarchicalGaussianMixture
+    from tempest import config as cfg
+    for ce in (1, 2, 3):
+        for clustering in (True, False):
+            clusterer = HierarchicalGaussianMixture(n_init=1, max_iterations=1000, min_points=None, threshold_modifier=1.0, covariance_type="full",
+                                                    verbose=False, normalize=True) if clustering else None
+            st = StateManager(2)
+            r = np.random.RandomState(7)
+            tr = None
+            for it in range(1, 7):
+                centre = np.array([0.15 + 0.12 * it, 0.8 - 0.1 * it])            # the cloud drifts from one iteration to the next
+                u = np.clip(centre + 0.01 * r.standard_normal((120, 2)), 0.001, 0.999)
+                st.update_current({"u": u, "x": u.copy(), "logl": -np.sum((u - centre) ** 2, axis=1), "beta": 0.1 * it, "logz": 0.0, "iter": it, "calls": 0,
+                                   "ess": 1.0, "assignments": np.zeros(len(u), dtype=int)})
+                st.commit_current_to_history()
+                st.set_current("beta", 0.1 * it)
+                st.set_current("iter", it)
+                if tr is None:
+                    tr = Trainer(st, None, clusterer, ce, clustering, cfg.TRIM_ESS, cfg.TRIM_BINS, cfg.DOF_FALLBACK)
+                N = sum(len(a) for a in st._history["u"])
+                w = np.zeros(N)
+                w[-len(u):] = 1.0 / len(u)                                       # all the weight on the newest batch
+                try:
+                    ms = tr.run(w.copy())
+                except Exception as e:
+                    return f"Trainer.run (cluster_every={ce}, clustering={clustering}, iteration {it}) raised {type(e).__name__}: {e}"
+                lo, hi = u.min(axis=0) - 1e-9, u.max(axis=0) + 1e-9
+                for k in range(ms.K):
+                    m = np.asarray(ms.means[k])
+                    if ((m < lo) | (m > hi)).any() and ms.K == 1:
+                        return (f"Trainer.run (cluster_every={ce}, clustering={clustering}, iteration {it}): mode location {np.round(m, 3).tolist()} lies outside the "
+                                f"bounding box of the particles carrying weight in this iteration ({np.round(lo, 3).tolist()}..{np.round(hi, 3).tolist()}): stale fit")
+    return None
+
+
 def main():
     p = json.load(open(sys.argv[1]))
     rng = np.random.RandomState(int(p.get("seed", 0)))
     np.random.seed(1)
     tried = 0
+    for nm, fn in (("modes carry the fit", lambda: modes_carry_the_fit(rng)), ("trainer uses current particles", trainer_uses_current_particles)):
+        tried += 1
+        try:
+            e = fn()
+        except Exception as ex:
+            e = None
+        if e:
+            print(json.dumps({"reproduced": True, "tried": tried, "detail": e, "input": {"case": nm}}))
+            return
     e = fallback(rng)
     tried += 1
     if e:
